@@ -213,6 +213,17 @@ def check(group, which, bs, n, cut):
 
 for _i in range(0, len(CURATED), 4):
     add_group('curated_%d' % (_i // 4), CURATED[_i:_i + 4], 'quick', 4, 1200)
+# states whose ONLY way out is a negated class / '.' (every named symbol loops back): must not be mistaken for dead states
+_a, _na, _ab = ('set', (A,)), ('nset', (A,)), ('alt', ('set', (A,)), ('set', (B,)))
+NEGATED_EXIT = [
+    (('cat', ('cat', _a, ('star', _a)), _na), 'a+[^a]'),
+    (('cat', ('any',), ('cat', ('star', _a), _na)), '.a*[^a]'),
+    (('cat', ('cat', _ab, ('star', _ab)), ('nset', (A, B))), '(a|b)+[^ab]'),
+    (('cat', ('any',), ('any',)), '..'),
+    (rep(('any',), 2, 3), '.{2,3}'),
+    (('cat', _na, ('cat', ('star', _a), _na)), '[^a]a*[^a]'),
+]
+add_group('negated_exit', NEGATED_EXIT, 'quick', 4, 1200)
 add_group('multibyte', MB, 'quick', 5, 900)
 _E = ('cat', ('set', (0xC3,)), ('set', (0xA9,)))
 add_group('multibyte_plus', [(('cat', _E, ('star', _E)), u'\xe9+')], 'quick', 5, 900)
